@@ -447,6 +447,19 @@ class CallGraph:
                 for name, dp, kind in imp["items"]:
                     if kind.startswith("Fn"):
                         self.impl_index[(tr, name)].append(dp)
+        # conversion blanket impls of core: x.into() / x.try_into() dispatch to the workspace's
+        # From / TryFrom impls; index them by (trait, source type, target type)
+        self.conv_index = {}
+        for c in self.crates:
+            for imp in facts.impls(c):
+                tr = imp.get("trait") or ""
+                if tr.endswith("convert::From") or tr.endswith("convert::TryFrom"):
+                    m = re.match(r"^.*convert::(?:Try)?From<(.*)>$", imp.get("traitref") or "")
+                    if not m:
+                        continue
+                    for name, dp, kind in imp["items"]:
+                        if kind.startswith("Fn") and name in ("from", "try_from"):
+                            self.conv_index[(name, m.group(1), imp["self"])] = dp
         self.edges = {}
         for n, f in self.fns.items():
             self.edges[n] = self._out_edges(f)
@@ -459,6 +472,13 @@ class CallGraph:
         """Possible workspace target fn names of a callee record."""
         if "ptr" in c:
             return []
+        d0 = c["def"]
+        if d0.endswith("convert::Into::into") or d0.endswith("convert::TryInto::try_into"):
+            ga = c.get("ga") or []
+            if len(ga) >= 2:
+                t = self.conv_index.get(("from" if d0.endswith("into") and not d0.endswith("try_into") else "try_from", ga[0], ga[1]))
+                if t:
+                    return [t]
         if "res" in c:
             return [c["res"]]
         d = c["def"]
@@ -829,7 +849,15 @@ def describe(f, o, depth=10, through=TRANSPARENT):
         return kdesc(f, r[1])
     if r[0] == "call":
         inner = ",".join(describe(f, a, depth - 3, through) for a in r[2]) if depth > 3 else "…"
-        return "call:%s(%s)" % (callee_name(r[1]).rsplit("::", 1)[-1], inner)
+        suffix = ""
+        for e in (r[4] if len(r) > 4 else []) + p[1:]:
+            if isinstance(e, list) and e[0] == "f":
+                suffix += "." + (e[2] if e[2] else str(e[1]))
+            elif isinstance(e, list) and e[0] == "d":
+                suffix += "@" + e[1]
+        if callee_name(r[1]).endswith("::branch") and suffix in ("@Continue.0", "@Continue"):
+            suffix = ""
+        return "call:%s(%s)%s" % (callee_name(r[1]).rsplit("::", 1)[-1], inner, suffix)
     if r[0] == "rvalue":
         rv = r[1]
         if rv[0] == "bin":
